@@ -85,7 +85,10 @@ class FirstOrderOneSiteTDVP(OneSiteTDVP):
             current_orth_path = self.orthogonalization_path[-1]
             self._move_orth_and_update_cache_for_path(current_orth_path)
         if len(self.state.nodes) > 2: # Not for the special case of two nodes
-            self._assert_leaf_node(node_id) # The final site to be updated should be a leaf node
+            # The final site to be updated is at the end of the tree, i.e. it
+            # is a leaf or a root with a single child.
+            errstr = f"Node {node_id} has more than one neighbour! It should not!"
+            assert self.state.nodes[node_id].nneighbours() <= 1, errstr
         self._update_site(node_id)
         self._reset_for_next_time_step()
 
